@@ -726,6 +726,52 @@ def ob_contact(et, seed):
     return Verdict(DISCHARGED, backend="real operator on Q(t); active set by witness", sub=n, detail=f"{nact}/{nPg} active")
 
 
+def ob_clenshaw_curtis():
+    """the path-quadrature rule: for every point count 1..12, 17, 33 the extracted __clenshaw_curtis returns increasing nodes in [0, 1] with exact end points,
+    symmetric nodes and weights, weights summing to 1, and integrates every monomial s^k, k <= nPoints - 1 (k <= 1 for the one-point midpoint rule), exactly --
+    the stress average along the strain path is the exact mean of a polynomial integrand of that degree (and S:de == dW for the quadrature stress)."""
+    g = sx.module_globals("EasyFEA.FEM.Operators.NonLinear")
+    f = extract.compile_fn(extract.get(NL, "__clenshaw_curtis"), g, exact=False)
+    n = 0
+    for N in list(range(1, 13)) + [17, 33]:
+        nodes, w = (np.asarray(a, dtype=float) for a in f(N))
+        n += 5
+        bad = None
+        if nodes.shape != (N,) or w.shape != (N,):
+            bad = f"returns {nodes.shape[0]} nodes and {w.shape[0]} weights"
+        elif N > 1 and not (nodes[0] == 0.0 and nodes[-1] == 1.0 and np.all(np.diff(nodes) > 0)):
+            bad = "nodes are not increasing from exactly 0 to exactly 1"
+        elif abs(w.sum() - 1) > 1e-13:
+            bad = f"weights sum to {w.sum():.15g}, not 1"
+        elif np.abs(nodes + nodes[::-1] - 1).max() > 1e-13 or np.abs(w - w[::-1]).max() > 1e-13:
+            bad = "nodes / weights are not symmetric about 1/2"
+        else:
+            deg = max(N - 1, 1)
+            for k in range(deg + 1):
+                n += 1
+                q = float(np.sum(w * nodes ** k))
+                if abs(q - 1.0 / (k + 1)) > 1e-12:
+                    bad = f"integral of s^{k} over [0,1] = {q:.15g}, exact {1.0/(k+1):.15g}"
+                    break
+        if bad:
+            raise Refuted(f"Clenshaw-Curtis rule with {N} points: {bad}", cex=dict(nPoints=N, nodes=nodes.tolist(), weights=w.tolist()), signature=f"clenshaw_curtis:{N}",
+                          replay=_sub("_replay_cc", N))
+    return Verdict(DISCHARGED, backend="extracted function, floats (1e-12)", sub=n)
+
+
+def _replay_cc(N):
+    """native: the real (name-mangled, cached) function of the module."""
+    try:
+        import EasyFEA.FEM.Operators.NonLinear as NLm
+        fn = getattr(NLm, "__clenshaw_curtis")
+        nodes, w = (np.asarray(a, dtype=float) for a in fn(int(N)))
+        deg = max(int(N) - 1, 1)
+        errs = [abs(float(np.sum(w * nodes ** k)) - 1.0 / (k + 1)) for k in range(deg + 1)]
+        return dict(confirmed=bool(max(errs) > 1e-12), max_err=max(errs), weight_sum=float(w.sum()))
+    except Exception as e:
+        return dict(confirmed=False, raised=repr(e))
+
+
 def ob_energy(kind, et, seed):
     """one step, arbitrary end states:  R_e . (u_{n+1} - u_n)_e == thickness * sum_p wJ (W_{n+1} - W_n)."""
     import random
@@ -1150,6 +1196,8 @@ def build(tier, seed):
         for et in ets:
             obs.append(Ob(f"C18.op.{kind}.{et}", ob_operator, (kind, et, seed), "B", (f"{NL}::{_opname(kind)}",), bound=f"2-element {et} patch, one seeded rational state, unit directions",
                           clause="K_e(t) d == d/dt R_e(t) as polynomials in t", timeout=3600))
+    obs.append(Ob("C18.quadrature.rule", ob_clenshaw_curtis, (), "B", (f"{NL}::__clenshaw_curtis",), bound="point counts 1-12, 17, 33; floats (1e-12)",
+                  clause="Clenshaw-Curtis nodes increasing from 0 to 1, symmetric, weights sum to 1, exact for every monomial of degree <= nPoints - 1"))
     for et in ("TRI3", "QUAD4") + (("TRI6",) if thorough else ()):
         obs.append(Ob(f"C18.op.follower.{et}", ob_follower, (et, seed), "B", (f"{NL}::FollowingPressure",), bound="one embedded surface element, one seeded state", clause="K_e == -dF/du", timeout=1800))
     for et in ("SEG2", "TRI3") + (("SEG3", "QUAD4") if thorough else ()):
